@@ -5,6 +5,7 @@ import (
 	"bytes"
 	"context"
 	"fmt"
+	"os"
 	"strings"
 	"sync"
 	"time"
@@ -163,9 +164,26 @@ func build(cf ecfg) *engine {
 	e := rig.NewEngine(opt, func(e *route.Engine) {
 		e.Use(recovery.Recovery())
 		e.Any("/ok/:a/:b", handler) // /ok requests are routed (FullPath set), all others reach NoRoute
+		e.GET("/dl/:a/:b", download)
 		e.NoRoute(handler)
 	})
 	return &engine{e, tr}
+}
+
+// download answers with a file from disk (ctx.File): what Finish reports is still the
+// request the client sent, not the file the handler chose
+var dlFile = func() string {
+	f, err := os.CreateTemp("", "verif-c19-dl-*.txt")
+	if err != nil {
+		return ""
+	}
+	f.WriteString("file served by the download handler")
+	f.Close()
+	return f.Name()
+}()
+
+func download(c context.Context, ctx *app.RequestContext) {
+	ctx.File(dlFile)
 }
 
 func handler(c context.Context, ctx *app.RequestContext) {
@@ -203,6 +221,7 @@ func getLB(w *mon.W, np bool) *lbServer {
 	srv, err := loop.Start(np, func(h *server.Hertz) {
 		h.Use(recovery.Recovery())
 		h.Any("/ok/:a/:b", handler)
+		h.GET("/dl/:a/:b", download)
 		h.NoRoute(handler)
 	}, server.WithTracer(tr), server.WithTraceLevel(stats.LevelDetailed), server.WithMaxRequestBodySize(10000))
 	if err != nil {
@@ -325,6 +344,9 @@ func oneConn(w *mon.W, c *mon.Case, get func(ecfg) *engine, loopback bool) {
 			stop = true
 			closedByRequest = true
 			continue
+		case 8:
+			oc = "download"
+			path = fmt.Sprintf("/dl/%d/%d", c.I, i)
 		case 7:
 			oc = "post-body"
 			// (bodies within one buffer block and spanning two)
@@ -473,6 +495,9 @@ func oneConn(w *mon.W, c *mon.Case, get func(ecfg) *engine, loopback bool) {
 			wantFP := ""
 			if strings.HasPrefix(x.path, "/ok/") && reached[x.path] {
 				wantFP = "/ok/:a/:b"
+			}
+			if strings.HasPrefix(x.path, "/dl/") && reached[x.path] {
+				wantFP = "/dl/:a/:b"
 			}
 			if x.fullPath != wantFP {
 				c.Violate("finish-data", "the Finish of request %q reports FullPath %q, want %q; trace: %s", x.path, x.fullPath, wantFP, render())
